@@ -5,6 +5,8 @@ import (
 	"bytes"
 	"context"
 	"fmt"
+	"io"
+	mrand "math/rand/v2"
 	"os"
 	"runtime"
 	"strings"
@@ -138,6 +140,7 @@ func TestCheck(t *testing.T) {
 	r.Count("watcher_after_return_and_cancel_trials", dangerous) // only possible when NewConn does not wait for its watcher
 	r.Floor("late_watcher_and_context_ended_trials", 200)
 	r.Floor("trials_completed", int64(idx/2))
+	r.Floor("trials_with_retry_after_context_end", int64(idx/5))
 	r.Sample(map[string]any{"hello_len": len(hello), "post_return_record": mon.Hex(app), "classes": classCount})
 }
 
@@ -271,6 +274,40 @@ func trial(r *mon.Run, idx, procs, hm, cm int, load bool, hello, app []byte, key
 			r.Violate("trial", idx, "deadline-set-after-return", fmt.Sprintf("SetDeadline was called on the transport after NewConn had returned successfully (interleaving %s)", class), c)
 			return class
 		}
+	}
+	// every other trial: the handshake goes on with a HelloRetryRequest and a retried hello, long after the context ended
+	if idx%2 == 0 {
+		rrng := mrand.New(mrand.NewPCG(uint64(idx), 99))
+		offer.Sender.SetSeq(1) // the fixture offer is shared by all (sequential) trials: every retry is the second message of its context
+		re := offer.Retry(rrng, echgen.DefaultOpts())
+		if _, err := conn.Write(tlswire.HRRRecord(offer.Outer.SessionID, 23)); err != nil {
+			r.Violate("trial", idx, "io-fails-after-return:write", fmt.Sprintf("Write of the HelloRetryRequest failed after NewConn returned and the context ended: %v (interleaving %s)", err, class), c)
+			return class
+		}
+		first := make([]byte, len(offer.Inner.Message())+5)
+		if _, err := io.ReadFull(conn, first); err != nil {
+			r.Violate("trial", idx, "io-fails-after-return:read", fmt.Sprintf("Read through the Conn failed after NewConn returned and the context ended: %v (interleaving %s)", err, class), c)
+			return class
+		}
+		tc.Feed(re.Record())
+		second := make([]byte, len(re.Inner.Message())+5)
+		if _, err := io.ReadFull(conn, second); err != nil {
+			r.Violate("trial", idx, "io-fails-after-return:retried-hello", fmt.Sprintf("reading the retried ClientHello failed after the NewConn context had ended: %v (interleaving %s)", err, class), c)
+			return class
+		}
+		if !bytes.Equal(second[5:], re.Inner.Message()) {
+			r.Violate("trial", idx, "io-wrong-bytes-after-return", "the retried hello read after the return is not its inner hello", c)
+			return class
+		}
+		for _, e := range tc.Snapshot() {
+			if (e.Kind == "deadline" || e.Kind == "rdeadline" || e.Kind == "wdeadline") && e.Seq > retSeq {
+				r.Violate("trial", idx, "deadline-set-after-return", fmt.Sprintf("SetDeadline was called on the transport while the retried hello was read, long after NewConn had returned (interleaving %s)", class), c)
+				return class
+			}
+		}
+		r.Count("trials_completed", 1)
+		r.Count("trials_with_retry_after_context_end", 1)
+		return class
 	}
 	// a deadline set BEFORE the return must not be left armed either
 	tc.Feed(app)
